@@ -649,6 +649,68 @@ def _all_field_names(sm):
     return out
 
 
+# ---------------------------------------------------------------------------------------------
+# one fragment spread under several parents, each parent merging something of its own (schema D)
+
+SHARED_EXTRAS = [
+    ("nothing", None),
+    ("leaf", lambda: F("name")),
+    ("same-key-other-subselection", lambda: F("owner", [F("age")])),
+    ("same-key-same-subselection", lambda: F("owner", [F("name")])),
+]
+
+
+def shared_extra_options():
+    """7 options per parent: nothing, or one of three extras before / after the spread"""
+    out = [("nothing", None, None)]
+    for tag, mk in SHARED_EXTRAS[1:]:
+        for where in ("before", "after"):
+            out.append((tag, where, mk))
+    return out
+
+
+def shared_fragment_parent_tuples(sm, tier):
+    """(type condition, tuple of (root field, alias|None))"""
+    q = S.fields_of(sm, sm["query"])
+    out = []
+    for tc in ("Dog", "Pet"):
+        parents = [fn for fn, f in q.items() if S.overlap(sm, S.named_of(S.parse_type(f["type"])), tc)]
+        for a in parents:
+            for b in parents:
+                if a != b:
+                    out.append((tc, ((a, None), (b, None))))
+        for a in ("first", "dogs", "pet"):
+            out.append((tc, ((a, "p1"), (a, "p2"))))
+    triples = [("first", "second", "dogs"), ("first", "pet", "cat"), ("dogs", "kennel", "pets")]
+    if tier == "thorough":
+        import itertools as _it
+
+        triples = list(_it.permutations(("first", "dogs", "pet"), 3)) + triples
+    for t in triples:
+        out.append(("Pet", tuple((x, None) for x in t)))
+    return out
+
+
+def shared_fragment_docs(sm, tc, parents):
+    """every assignment of the 7 extra options to the parents -> (tag, case)"""
+    opts = shared_extra_options()
+    for combo in itertools.product(range(len(opts)), repeat=len(parents)):
+        sels = []
+        tags = []
+        for (fname, alias), k in zip(parents, combo):
+            tag, where, mk = opts[k]
+            body = [SP("Shared")]
+            if mk is not None:
+                if where == "before":
+                    body.insert(0, mk())
+                else:
+                    body.append(mk())
+            sels.append(F(fname, body, alias=alias))
+            tags.append(tag if where is None else "%s-%s" % (tag, where))
+        frag = ["Shared", tc, [], [F("name"), F("owner", [F("name")])]]
+        yield "/".join(tags), {"doc": mkdoc(mkop(sels), [frag]), "vars": {}, "devs": ["shared-fragment"]}
+
+
 def assignments(vars_):
     """every combination of the per-variable choices -> list of dicts (OMIT dropped)."""
     names = list(vars_)
